@@ -42,6 +42,10 @@ def run(ctx):
         r3(ctx, facts, cfg)
         r4(ctx, facts, cfg)
         r4_buffer_is_not_a_c_string(ctx, facts, cfg)
+        # what is held back is the statement: copy_to — the ring's way of storing — carries every member across, the text included (= C03.R4t)
+        from rules import c03
+        from rules.c09 import Renamed
+        c03.transit_event_transfer(Renamed(ctx, "C03.R4t", "C18.R5t"), facts, cfg, "C03.R4")
 
 
 def r1(ctx, facts, cfg):
